@@ -26,7 +26,8 @@ RULE = ("Expression trees over leaves with every operator (>, >=, <, <=, ==, !=,
         "from the bounds of the case (release, release with last segment +-1, padded/truncated, next minor/major) "
         "plus a fixed grid. One evaluation = one (node, candidate) membership decision. Non-trivial/distinct: "
         "(tree text, candidate) where the node value is neither empty nor universal. A separate stratum mixes "
-        "=== leaves (targets 1.0, 1.0.0, abc and pool versions) into the trees.")
+        "=== leaves (targets 1.0, 1.0.0, abc and pool versions) into the trees."
+        " Large trees (unions up to ~50 ranges): every literal bound is a candidate, derived neighbours are sampled, upper nodes are probed.")
 ASSUMPTIONS = [
     "reference = the packaging release installed next to the library, asked with prereleases=True about leaves only",
     "only final releases are candidates (PEP 440 exclusion rules for pre/post/dev are outside the claim)",
